@@ -86,6 +86,12 @@ def main(tier, seed, replay=None):
                                 "continuous leaves (Gaussian mean / Uniform start / Isotonic bin centre) are checked in Python only: evidence preserved, no NaN left"]
     from deeprob.spn.algorithms.inference import mpe
     from deeprob.spn.structure.node import assign_ids
+    _raw_violation = rep.violation; _per_kind = {}
+    def capped(info, found):
+        k = info.get("kind"); _per_kind[k] = _per_kind.get(k, 0) + 1
+        if _per_kind[k] <= 3:                      # at most three replays per kind of failure
+            _raw_violation(info, found)
+    rep.violation = capped
     ncirc = 40 if tier == "quick" else 400
     files = []; metas = []
     dist = dict(circuits=0, clts=0, rows=0, missing_cells={})
